@@ -5,6 +5,7 @@ syntax/parser.go by the regenerated `Generated.Escape` facts and by corresponden
 -/
 import RegexVerif.Lemmas.Escape
 import RegexVerif.Lemmas.EscapeParse
+import RegexVerif.Lemmas.EscapeFull
 
 namespace RegexVerif.Props.C19
 open RegexVerif RegexVerif.Escape RegexVerif.Lemmas.Escape
@@ -223,5 +224,76 @@ example : parseWhy {} asciiWord (escapeUnpadded asciiPrint [0x378, 120]) = .stop
 example : parseLit optsEcma asciiWord (escapeUnpadded asciiPrint [0x378, 120]) = some [117, 51, 55, 56, 120] := by
   decide
 example : parseLit {} asciiWord (escapeUnpadded asciiPrint [0x378, 97]) = some [0x378a] := by decide
+
+
+/-! ### "Escape yields a literal" on the FULL parser model (`Model/Parser.lean`)
+
+`escape_parses_as_literal` above is about `parseLit`, the small model of the parser restricted to the literal
+fragment.  The theorems of this section are about `Parser.parse` itself — the model of `syntax.Parse`
+(`countCaptures` + `scanRegex` and everything they call) that leg Pr compares with the Go parser on arbitrary
+patterns and that `Props.C10.parse_total` / the chain theorem are about. -/
+
+/-- **The literal a raw-tree node spells.**  `spells n w`: `n` is a literal leaf — a One (`[ch]`), a Multi (its
+    string), an Empty (`[]`), each without set and children (`Parser.leafRunes`) — or a Concatenate all of whose
+    children are such leaves and whose runes, read in pattern order, concatenate to `w` (`Parser.kidsRunes`; the
+    parser stores the children of a RightToLeft concatenation reversed: `reverseLeft`). -/
+def spells (n : Parser.RNode) (w : List Nat) : Prop :=
+  Parser.leafRunes n = some w ∨
+  (n.t = .concatenate ∧ Parser.kidsRunes (if n.o.r then n.kids.reverse else n.kids) = some w)
+
+instance (n : Parser.RNode) (w : List Nat) : Decidable (spells n w) := by unfold spells; exact inferInstance
+
+/-- the tree of a pattern without groups and alternatives around the node `c`: the root Capture 0 (slot 0, no
+    balancing slot) over the one-branch Alternate the parser always builds (`addGroup`; the raw tree is the tree
+    before any `reduce()`), all with the top-level options -/
+def literalRoot (opts : Parser.Opts) (c : Parser.RNode) : Parser.RNode :=
+  .mk .capture opts 0 [] none 0 (-1) [.mk .alternate opts 0 [] none 0 0 [c]]
+
+/-- **C19, "Escape yields a literal", on the full parser model.**  For every rune string `s` (any list of code
+    points: the pattern is a rune list in the model, validity of the runes is not needed), every oracle record, and
+    EVERY option set without IgnoreCase — all 256 combinations of Multiline, ExplicitCapture, Singleline,
+    IgnorePatternWhitespace, RightToLeft, ECMAScript, RE2, Unicode, with or without `MaintainCaptureOrder`; these
+    include the 16 combinations of `escape_parses_as_literal` — `Parse(Escape(s))` succeeds (no ErrorCode, no
+    fault, fuel not exhausted), its capture tables are those of a pattern without groups (slot 0 only), and its
+    tree is the root Capture 0 around a Concatenate that SPELLS `s`: every child is a One or a Multi node (a run
+    of unescaped runes becomes one node: One for a single rune, Multi for more; every escape `\c`, `\n`…, `\xHH`,
+    `\uHHHH` becomes a One), and the runes of the children, in pattern order, are exactly `s`.
+    IgnoreCase is excluded (`hi`): it turns cased letters into sets, which is not "literal meaning".
+    Oracle hypotheses as in `escape_parses_as_literal`. -/
+theorem escape_parses_as_literal_full (isPrint : Nat → Bool) (orc : Parser.Oracles)
+    (hW : ∀ c, Generated.metaChars.contains c = true → orc.isWord c = false)
+    (hP : ∀ c, 9 ≤ c → c ≤ 13 → isPrint c = false)
+    (opts : Parser.Opts) (hi : opts.i = false) (mco : Bool) (s : List Nat) :
+    ∃ c, Parser.parse { pat := escape isPrint s, opts := opts, mco := mco, orc := orc } =
+        .ok { root := literalRoot opts c,
+              tables := Parser.noGroupTables { pat := escape isPrint s, opts := opts, mco := mco, orc := orc } } ∧
+      spells c s ∧ c.t = .concatenate ∧
+      (Parser.noGroupTables { pat := escape isPrint s, opts := opts, mco := mco, orc := orc }).caps = [0] := by
+  obtain ⟨ks, h1, h2⟩ := Parser.ef_parse { pat := escape isPrint s, opts := opts, mco := mco, orc := orc }
+    isPrint hW hP s rfl hi
+  refine ⟨.mk .concatenate opts 0 [] none 0 0 (if opts.r then ks.reverse else ks), h1, Or.inr ⟨rfl, ?_⟩, rfl,
+    (Parser.noGroupTables_caps _).1⟩
+  simp only [Parser.RNode.o, Parser.RNode.kids]
+  by_cases hr : opts.r = true <;> simp [hr, h2]
+
+/-- the full-model options of a `ParseOpts` (the four options that change how a literal is read), the others
+    given separately -/
+def fullOpts (o : ParseOpts) (m n s r : Bool) : Parser.Opts :=
+  { i := false, m := m, n := n, s := s, x := o.x, r := r, e := o.ecma, re2 := o.re2, u := o.u }
+
+/-- **The two parser models agree on `Escape`'s output** — the statement the audit asked for, mentioning both
+    `parseLit` and `Parser.parse`: under each of the 16 option sets of `escape_parses_as_literal` (and whatever
+    Multiline / ExplicitCapture / Singleline / RightToLeft are), the small model reads `Escape s` as the literal
+    `s` and the full model builds a tree that spells `s`. -/
+theorem parseLit_and_parse_agree_on_escape (isPrint : Nat → Bool) (orc : Parser.Oracles)
+    (hW : ∀ c, Generated.metaChars.contains c = true → orc.isWord c = false)
+    (hP : ∀ c, 9 ≤ c → c ≤ 13 → isPrint c = false)
+    (o : ParseOpts) (m n sl r mco : Bool) (s : List Nat) :
+    parseLit o orc.isWord (escape isPrint s) = some s ∧
+    ∃ c t, Parser.parse { pat := escape isPrint s, opts := fullOpts o m n sl r, mco := mco, orc := orc } = .ok t ∧
+      t.root = literalRoot (fullOpts o m n sl r) c ∧ spells c s := by
+  refine ⟨escape_parses_as_literal isPrint orc.isWord hW hP o s, ?_⟩
+  obtain ⟨c, h1, h2, _⟩ := escape_parses_as_literal_full isPrint orc hW hP (fullOpts o m n sl r) rfl mco s
+  exact ⟨c, _, h1, rfl, h2⟩
 
 end RegexVerif.Props.C19
